@@ -161,3 +161,58 @@ def split_top(s):
     if cur.strip():
         out.append(cur)
     return out
+
+
+def bln_correspondence(chk, traces, scripts, shards=16):
+    import bln_corr
+    names = sorted(traces)
+    byname = {s['name']: s for s in scripts}
+    iso_of = lambda n: [c['id'] for c in byname[n]['_machine']['cpus'] if c['isolated']]
+    per = max(1, (len(names) + shards - 1) // shards)
+    files, groups = [], []
+    stats = collections.Counter()
+    for k in range(0, len(names), per):
+        grp = names[k:k + per]
+        p = os.path.join(chk.work, 'cases_bln_%02d.v' % (k // per))
+        st = bln_corr.case_file(p, [(n, traces[n]) for n in grp], iso_of)
+        for s in st.values():
+            stats.update(s)
+        files.append(p)
+        groups.append(grp)
+    results = coq_eval_many(files, timeout=600)
+    bad = []
+    for grp, p, (rc, out) in zip(groups, files, results):
+        body = parse_coq_print(out, 'M')
+        if rc != 0 or body is None:
+            chk.corr_broken('Bln_Model/' + os.path.basename(p), 'coqc failed:\n' + out[-1500:])
+            continue
+        items = split_top(body.strip()[1:-1])
+        if len(items) != len(grp):
+            chk.corr_broken('Bln_Model/' + os.path.basename(p), 'cannot parse result list: ' + body[:500])
+            continue
+        for n, it in zip(grp, items):
+            if it.strip() != 'None':
+                bad.append((n, ' '.join(it.split())))
+    for n, it in bad:
+        chk.corr_broken('Bln_Model:' + n, 'model and implementation differ on history %s: %s' % (n, it))
+    stats['traces'] = len(names)
+    stats['mismatching_traces'] = len(bad)
+    return stats, bad
+
+
+def bln_oracle_pass(chk, scripts, traces, props, pristine=False):
+    nfind = collections.Counter()
+    for sc in scripts:
+        recs = traces.get(sc['name'])
+        if not recs:
+            continue
+        for rec, (cfg, changed) in zip(recs, configs_along(sc, recs)):
+            fs = fsoracle.bln_state_findings(rec, cfg, sc['_machine'])
+            if pristine and rec.get('tag') == 'quiescent':
+                fs += fsoracle.bln_pristine_findings(recs[0], rec, not changed)
+            for f in fs:
+                if f['prop'] in props:
+                    nfind[(f['prop'], f['sig'])] += 1
+                    chk.violation(f['sig'], '%s [%s] history %s event %d: %s' % (f['prop'], f['clause'], sc['name'], f['seq'], f['what']),
+                                  {k: v for k, v in replay_of(sc, f['seq']).items() if not k.startswith('_')})
+    return nfind
